@@ -21,11 +21,20 @@ Open Scope Z_scope.
 
 Inductive wstate := Handshake | Accepted | Closed.
 
+(* the Python type of a payload / of an event field: exactly str or bytes; a subclass of it;
+   bytearray; memoryview; KMutated is only ever observed, never produced by the model: the
+   content of the event changed between the moment send() was called and the moment the
+   server read it (the event aliases a buffer the application still owns) *)
+Inductive pkind := KExact | KSub | KArray | KView | KMutated.
+
+Definition strish (k : pkind) : bool := match k with KExact | KSub => true | _ => false end.
+
 Record cfg := mkCfg {
   hdrs_ok : bool;        (* ASGI spec version <> 2.0 *)
   reason_ok : bool;      (* ASGI spec version >= 2.3 *)
   cap : nat;             (* ws_options.max_receive_queue *)
-  err_code : Z           (* ws_options.error_close_code *)
+  err_code : Z;          (* ws_options.error_close_code *)
+  media_kind : pkind     (* what the binary media handler's serialize() returns *)
 }.
 
 Inductive cev := CText (n : N) | CBin (n : N) | CDisc (c : option Z).
@@ -37,7 +46,7 @@ Inductive sfail := SOk | SOSError (cause : option Z) | SNormal | SProto | SOther
 
 Inductive event :=
 | EAccept (sub : option N) (hdrs : bool)
-| EText (n : N) | EBytes (n : N)
+| EText (n : N) (k : pkind) | EBytes (n : N) (k : pkind)
 | EClose (code : Z) (reason : bool).
 
 Inductive exc :=
@@ -147,7 +156,7 @@ Definition advance (c : cfg) (w : ws) : ws :=
 Inductive subarg := SubNone | SubStr (n : N) | SubBad.
 Inductive hdrarg := HNone | HGood | HBadName.
 Inductive codearg := CNone | CInt (z : Z) | CNotInt.
-Inductive payload := PGood (n : N) | PBad.
+Inductive payload := PGood (n : N) (k : pkind) | PBad.
 Inductive raisek := RHTTPError (status : Z) | RHTTPStatus (status : Z) | RGeneric.
 
 Inductive op :=
@@ -241,19 +250,31 @@ Definition op_send (e : event) (w : ws) : result * ws :=
 Definition op_send_text (p : payload) (w : ws) : result * ws :=
   match require_accepted w with
   | Some x => (Raise x, w)
-  | None => match p with PBad => (Raise XType, w) | PGood n => op_send (EText n) w end
+  | None =>
+    match p with
+    | PBad => (Raise XType, w)
+    | PGood n k => if strish k then op_send (EText n k) w        (* passed through as is *)
+                   else (Raise XType, w)                         (* not a str *)
+    end
   end.
 
 Definition op_send_data (p : payload) (w : ws) : result * ws :=
   match require_accepted w with
   | Some x => (Raise x, w)
-  | None => match p with PBad => (Raise XType, w) | PGood n => op_send (EBytes n) w end
+  | None =>
+    match p with
+    | PBad => (Raise XType, w)
+    | PGood n k => op_send (EBytes n KExact) w                   (* bytes(payload): a copy *)
+    end
   end.
 
-Definition op_send_media (bin : bool) (n : N) (w : ws) : result * ws :=
+(* send_media: as found the handler's result goes into the event as is (the handler may return
+   bytes, bytearray or memoryview); repaired (fixes/C17-send-media-bytes.patch): bytes(...) *)
+Definition op_send_media (fixed : bool) (c : cfg) (bin : bool) (n : N) (w : ws) : result * ws :=
   match require_accepted w with
   | Some x => (Raise x, w)
-  | None => op_send (if bin then EBytes n else EText n) w
+  | None =>
+    op_send (if bin then EBytes n (if fixed then KExact else media_kind c) else EText n KExact) w
   end.
 
 (* self._asgi_receive(): the next client event, or Blocked when none will ever come *)
@@ -319,7 +340,7 @@ Definition run_op (fixed : bool) (hr : Z -> bool) (c : cfg) (o : op) (w : ws) : 
   | OClose ca reason => op_close fixed hr c ca reason w
   | OSendText p => op_send_text p w
   | OSendData p => op_send_data p w
-  | OSendMedia b n => op_send_media b n w
+  | OSendMedia b n => op_send_media fixed c b n w
   | ORecvText => op_recv fixed 0 c w
   | ORecvData => op_recv fixed 1 c w
   | ORecvMedia => op_recv fixed 2 c w
